@@ -1,7 +1,9 @@
 """C08 - output options change only the lexical form, never the content.
 MC : MC_Indent.tla - the transcribed XalanIndentWriter + FormatterToXMLUnicode call sites (IndentImpl) over every event
-     sequence of bounded length: what it writes reads back as the same tree modulo OutputOptions!SameContent; the named
-     deviations KD_* are excluded and shown real.  MC_OutputOptions.tla - the option product, every vector well-formed.
+     sequence of bounded length: what it writes reads back as the same tree modulo OutputOptions!SameContent - on every
+     sequence, no named deviation KD_* is left since the repairs fixes/C08-wsAfter*.patch (the model is the repaired
+     algorithm and asserts that the former witnesses conform).  MC_OutputOptions.tla - the option product, every vector
+     well-formed.
 GEN: one shortest event sequence per transition of the MC_Indent graph (hist + VIEW + tlc -dump) -> mixed-content shapes;
      the option vectors are TLC's enumeration of OutputOptions!OptionProduct (quick: a pairwise cover chosen from it);
      seeded random XML-ish and HTML-ish result trees (VERIF_SEED).
@@ -10,7 +12,9 @@ RUN: harness/c08.cpp - one real transformation per (tree, vector): a generated s
      tools/c08lib.py reads the bytes back with expat / html.parser / plain decoding (independent parsers).
 TV : Trace_C08.tla - first event of an execution = reference vector, every other event must satisfy SameContent /
      HtmlSame / the text rule of OutputOptions.tla.  TLC decides; a reject is attributed to a known finding only if
-     undoing exactly that deviation makes TLC accept the event."""
+     undoing exactly that deviation makes TLC accept the event.  Only findings whose status is "known" suppress anything
+     (vlib.known_findings): a class whose status is "fixed" is recognised the same way, but reported as a VIOLATION
+     ("recurrence of repaired finding")."""
 import copy, html, json, os, random, re, subprocess, itertools, time
 from concurrent.futures import ThreadPoolExecutor, ProcessPoolExecutor
 import vlib, tlaparse, c08lib
@@ -286,6 +290,16 @@ def _has_doe(tree, v):
     return w(tree)
 
 
+def fixed_keys():
+    """keys of this property's findings that have been repaired (status "fixed"): they suppress nothing, the set only names a recurrence"""
+    import glob
+    out = set()
+    for path in [os.path.join(ROOT, "known_findings.jsonl")] + sorted(glob.glob(os.path.join(ROOT, "known_findings.d", "*.jsonl"))):
+        if os.path.exists(path):
+            out |= {r["key"] for r in vlib.read_ndjson(path) if r.get("property") == PROP and r.get("status") == "fixed"}
+    return out
+
+
 def process_batch(res, exe, wd, batch, known, tot, nt):
     """one batch of executions: transform, read back, validate, attribute rejects"""
     os.makedirs(wd, exist_ok=True)
@@ -356,7 +370,9 @@ def process_batch(res, exe, wd, batch, known, tot, nt):
                     for key in keys:
                         res.known(known[key])
                 else:
-                    res.violation("%s | opts %s" % (rj["msg"][:260], json.dumps({f: v for f, v in ev["opts"].items() if REF[f] != v})),
+                    back = [key for key in keys if key in tot.get("fixed", ())] if pos[(xi, k)] not in still else []
+                    res.violation("%s%s | opts %s" % ("recurrence of repaired finding %s: " % ", ".join(back) if back else "", rj["msg"][:260],
+                                                      json.dumps({f: v for f, v in ev["opts"].items() if REF[f] != v})),
                                   [{"e": "Reset", "treeId": xi}, refs[xi], dict(ev, xsl=cases[cid]["xsl"], hex=dones[cid]["hex"], attributed=keys)])
     vlib.log("c08: batch of %d transformations: run %.0fs, read back %.0fs, validation %.0fs (%d rejects looked at twice)" % (
         len(cases), t1 - t0, t2 - t1, time.time() - t2, len(rejects)))
@@ -408,7 +424,7 @@ def run(res, tier, seed):
             execs.append((kind, t, cover[c:c + 120]))
     exe = vlib.build_harness("c08")
     known = {k["key"]: k for k in vlib.known_findings(PROP)}
-    tot = {"cases": 0, "out": 0, "rejects": 0, "tv_states": 0}
+    tot = {"cases": 0, "out": 0, "rejects": 0, "tv_states": 0, "fixed": fixed_keys()}
     nt = set()
     vlib.log("c08: %d shapes x %d vectors, %d trees x %d vectors" % (len(shapes), len(shape_vecs), len(trees), len(cover)))
     batch, size, bi = [], 0, 0
@@ -422,7 +438,7 @@ def run(res, tier, seed):
     res.cov["traces_validated_against_impl"] = tot["out"] - tot["rejects"]
     # ---- the exhaustive model
     rmc = mcfut.result()
-    res.add_mc(rmc, "MC_Indent/Spec (every event sequence of length <= %d, nesting <= 3: DummyExact, IndentConforms, NoWsNextToText, PreservesDead, KDsAreReal)" % mh)
+    res.add_mc(rmc, "MC_Indent/Spec (every event sequence of length <= %d, nesting <= 3: DummyExact, IndentConforms, NoWsNextToText, PreservesDead - no exclusions; ASSUME: former deviation witnesses conform)" % mh)
     res.add_mc(rgen, "MC_Indent/GenSpec (one shortest sequence per transition, VIEW)")
     # non-trivial (counted in process_batch): a non-reference vector that switches on something that can touch the content
     # (indentation, a non-UTF-8 encoding, html/text method, cdata sections) on a tree that is not tiny
